@@ -41,6 +41,16 @@ Proof.
         | unfold g_cbor_load_uint64, fb_cbor_load_uint64, srcf; cbn [map Z.to_nat Pos.to_nat Pos.iter_op Nat.add nth]; rewrite !N2Z.id; reflexivity ].
 Qed.
 
+(* ---- AUDIT2: the loaders read nothing but their k bytes.  The lemmas above run the generated loader on [srcf [b0; ..]], where a
+   read beyond the list yields 0: an over-read (`+ *(source + 2)`) was invisible to them.  Here the source is arbitrary outside the window. ---- *)
+Ltac window H := first [ rewrite !H by lia; reflexivity | reflexivity ].
+Lemma bridge_load_uint16_window s s' : (forall i, 0 <= i < 2 -> s i = s' i) -> g_cbor_load_uint16 s = g_cbor_load_uint16 s'.
+Proof. intros H. first [ unfold g_cbor_load_uint16; window H | unfold g_cbor_load_uint16, fb_cbor_load_uint16; cbn [map]; window H ]. Qed.
+Lemma bridge_load_uint32_window s s' : (forall i, 0 <= i < 4 -> s i = s' i) -> g_cbor_load_uint32 s = g_cbor_load_uint32 s'.
+Proof. intros H. first [ unfold g_cbor_load_uint32; window H | unfold g_cbor_load_uint32, fb_cbor_load_uint32; cbn [map]; window H ]. Qed.
+Lemma bridge_load_uint64_window s s' : (forall i, 0 <= i < 8 -> s i = s' i) -> g_cbor_load_uint64 s = g_cbor_load_uint64 s'.
+Proof. intros H. first [ unfold g_cbor_load_uint64; window H | unfold g_cbor_load_uint64, fb_cbor_load_uint64; cbn [map]; window H ]. Qed.
+
 (* ---- streaming.c: claim_bytes ---- *)
 Lemma bridge_claim_bytes required provided r : (required < 2^64)%N -> (provided < 2^64)%N -> (rd r < 2^64)%N ->
   gclaim_bytes (Z.of_N required) (Z.of_N provided) (Z.of_N (rd r)) (zstatus (st r)) (Z.of_N (req r)) =
